@@ -10,10 +10,11 @@ fn rt(threads: usize) -> tokio::runtime::Runtime {
     else { tokio::runtime::Builder::new_multi_thread().worker_threads(threads).enable_all().build().unwrap() }
 }
 
-async fn run_scenario(s: &Scenario, cfg: &str) -> (Vec<OpResult>, Judge) {
+async fn run_scenario(s: &Scenario, cfg: &str, cyclic: bool) -> (Vec<OpResult>, Judge) {
     let w = World::new(s.prog.clone(), s.n_ext as usize);
     let mut results = Vec::new();
     let mut judge = Judge::default();
+    judge.cyclic = cyclic;
     if let Some(cap) = cfg.strip_prefix("db:") {
         let cap: u64 = cap.parse().unwrap();
         let disk = Shared::new();
@@ -47,6 +48,7 @@ fn hist(args: &[String]) {
     let shards: usize = args[3].parse().unwrap();
     let cfg = args[4].clone();
     let basic = args.get(5).map(|s| s == "basic").unwrap_or(false);
+    let cyclic = args.get(5).map(|s| s == "cyclic").unwrap_or(false);
     std::fs::create_dir_all(dir).unwrap();
     let mut r = Rng::new(seed);
     let mut out: Vec<Vec<String>> = vec![Vec::new(); shards];
@@ -58,17 +60,18 @@ fn hist(args: &[String]) {
     let threads: usize = std::env::var("QV_THREADS").ok().and_then(|s| s.parse().ok()).unwrap_or(1);
     let mut runtime = rt(threads);
     let mut hangs: Vec<String> = Vec::new();
+    let hang_secs: u64 = std::env::var("QV_HANG_SECS").ok().and_then(|s| s.parse().ok()).unwrap_or(20);
     let only: Option<u64> = std::env::var("QV_ONLY").ok().and_then(|s| s.parse().ok());
     for k in 0..n {
-        let g = GenCfg { max_nodes: 10, max_ops: 14, allow_fw: !basic, allow_proj: !basic, allow_ext: !basic, allow_group: !basic, restarts: cfg != "mem" };
+        let g = GenCfg { max_nodes: 10, max_ops: 14, allow_fw: !basic, allow_proj: !basic, allow_ext: !basic, allow_group: !basic, restarts: cfg != "mem", cyclic };
         let s = gen_scenario(&mut r, &g);
         if let Some(only) = only { if only != k { continue; } }
         if std::env::var("QV_TRACE_SCN").is_ok() { std::fs::write(format!("{dir}/current.txt"), scenario_coq(&s)).unwrap(); }
-        let done = runtime.block_on(async { tokio::time::timeout(Duration::from_secs(20), run_scenario(&s, &cfg)).await });
+        let done = runtime.block_on(async { tokio::time::timeout(Duration::from_secs(hang_secs), run_scenario(&s, &cfg, cyclic)).await });
         let (res, j) = match done {
             Ok(x) => x,
             Err(_) => {
-                hangs.push(format!("{{\"violation\":\"no progress within 20 s (hang)\",\"scenario\":{:?}}}", scenario_coq(&s)));
+                hangs.push(format!("{{\"index\":{k},\"violation\":\"no progress within 20 s (hang)\",\"scenario\":{:?}}}", scenario_coq(&s)));
                 // the runtime still holds the stuck tasks: abandon it
                 std::mem::forget(std::mem::replace(&mut runtime, rt(threads)));
                 continue;
@@ -142,12 +145,37 @@ fn f6(args: &[String]) {
     println!("{{\"sessions\":{sessions},\"stale_answers\":{stale},\"first\":{:?}}}", first);
 }
 
+/// engine replay <scenario file> <cfg> [cyclic]: run one scenario (the printed `[program] [ops]` form) with a trace
+fn replay(args: &[String]) {
+    let text = std::fs::read_to_string(&args[0]).unwrap();
+    let cfg = args.get(1).cloned().unwrap_or_else(|| "mem".into());
+    let cyclic = args.get(2).map(|s| s == "cyclic").unwrap_or(false);
+    let s = parse::scenario(&text);
+    let threads: usize = std::env::var("QV_THREADS").ok().and_then(|s| s.parse().ok()).unwrap_or(1);
+    let runtime = rt(threads);
+    let secs: u64 = std::env::var("QV_HANG_SECS").ok().and_then(|s| s.parse().ok()).unwrap_or(20);
+    let done = runtime.block_on(async { tokio::time::timeout(Duration::from_secs(secs), run_scenario(&s, &cfg, cyclic)).await });
+    match done {
+        Ok((res, j)) => {
+            for (i, (op, r)) in s.ops.iter().zip(res.iter()).enumerate() { println!("step {i}: {:?} -> {:?} execs={:?}", op, r.outcome, r.events.iter().filter_map(|e| if let Event::Exec(n) = e { Some(n.short()) } else { None }).collect::<Vec<_>>()); }
+            println!("C01: {:?}\nC03: {:?}\nknown changeback: {:?}", j.violations_c01, j.violations_c03, j.known_c03_changeback);
+            std::process::exit(if j.violations_c01.is_empty() && j.violations_c03.is_empty() { 0 } else { 1 });
+        }
+        Err(_) => { println!("HANG: no progress within {secs} s"); std::mem::forget(runtime); std::process::exit(2); }
+    }
+}
+
 fn main() {
     let args: Vec<String> = std::env::args().collect();
     if std::env::var("QV_PANIC_TRACE").is_err() { std::panic::set_hook(Box::new(|_| {})); }
+    if std::env::var("QV_TRACING").is_ok() {
+        use tracing_subscriber::fmt::format::FmtSpan;
+        tracing_subscriber::fmt().with_max_level(tracing::Level::DEBUG).with_span_events(FmtSpan::NEW | FmtSpan::CLOSE).with_writer(std::io::stderr).without_time().init();
+    }
     match args[1].as_str() {
         "hist" => hist(&args[2..]),
         "f6" => f6(&args[2..]),
+        "replay" => replay(&args[2..]),
         m => panic!("unknown mode {m}"),
     }
 }
